@@ -725,7 +725,13 @@ impl TieredEngine {
         &self,
         doc_id: u64,
     ) -> Option<(Vec<f32>, std::collections::HashMap<String, String>)> {
-        if let Some(metadata) = self.cold_tier.fetch_metadata(doc_id) {
+        // Take embedding, metadata and token from one canonical snapshot: the pair returned must
+        // belong to the same write even if an overwrite lands while this read is in progress.
+        if let Some(Some((canonical_embedding, metadata, canonical_coherence))) = self
+            .cold_tier
+            .bulk_fetch_with_coherence(&[doc_id])
+            .pop()
+        {
             if let Some((embedding, coherence)) = self.hot_tier.get_with_coherence(doc_id) {
                 match self.canonical_vector_state(
                     doc_id,
@@ -733,18 +739,18 @@ impl TieredEngine {
                     coherence,
                     "document-with-metadata hot-tier hit",
                 ) {
-                    CanonicalVectorState::Match => return Some((embedding, metadata)),
+                    CanonicalVectorState::Match if coherence == canonical_coherence => {
+                        return Some((embedding, metadata))
+                    }
+                    // A newer write landed after the snapshot; serve the snapshot pair.
+                    CanonicalVectorState::Match => {}
                     CanonicalVectorState::TokenMismatch | CanonicalVectorState::LocalCorruption => {
                         self.discard_stale_hot_mirror(doc_id, "document-with-metadata hot-tier hit")
                     }
                     CanonicalVectorState::Missing => {}
                 }
             }
-            if let Some((embedding, _coherence)) =
-                self.cold_tier.fetch_document_with_coherence(doc_id)
-            {
-                return Some((embedding, metadata));
-            }
+            return Some((canonical_embedding, metadata));
         }
 
         if self.hot_tier.exists(doc_id) {
@@ -966,15 +972,22 @@ impl TieredEngine {
                     "bulk query hot-tier hit",
                 ) {
                     CanonicalVectorState::Match => {
-                        if let Some(canonical_metadata) = self.cold_tier.fetch_metadata(doc_id) {
-                            results[i] =
-                                Some((embedding, canonical_metadata, PointQueryTier::HotTier));
-                        } else {
-                            warn!(
-                                doc_id,
-                                "bulk query found canonical vector without canonical metadata; falling back to cold tier"
-                            );
-                            missing_indices.push(i);
+                        // Pair the mirror embedding only with metadata read in the same canonical
+                        // snapshot as a token equal to the mirror's; otherwise an overwrite has
+                        // landed in between and the cold tier serves a consistent pair below.
+                        match self
+                            .cold_tier
+                            .bulk_fetch_with_coherence(&[doc_id])
+                            .pop()
+                            .flatten()
+                        {
+                            Some((_, canonical_metadata, canonical_coherence))
+                                if canonical_coherence == coherence =>
+                            {
+                                results[i] =
+                                    Some((embedding, canonical_metadata, PointQueryTier::HotTier));
+                            }
+                            _ => missing_indices.push(i),
                         }
                     }
                     CanonicalVectorState::TokenMismatch | CanonicalVectorState::LocalCorruption => {
